@@ -28,7 +28,7 @@ from datetime import datetime, timezone
 from fractions import Fraction as F
 from types import SimpleNamespace as NS
 
-from lib.core import Stream, cQ, cbool, copt
+from lib.core import Stream, cQ, cZ, cbool, copt
 from lib.exact import X
 
 NOW = datetime(2020, 1, 1, tzinfo=timezone.utc)
@@ -288,6 +288,15 @@ def wf_inverters(case):
     return True
 
 
+def overlapping(gs):
+    """two different battery sets share a battery (the inverter-sharing relation is not transitive)"""
+    sets = [frozenset(g["bats"]) for g in gs]
+    return any(i < j and sets[i] & sets[j] for i in range(len(sets)) for j in range(len(sets)))
+
+
+FINDING_OVERLAP = "C17-overlapping-battery-sets"
+
+
 def norm_groups(gs):
     return sorted((sorted(g["bats"]), sorted(g["invs"])) for g in gs)
 
@@ -321,11 +330,16 @@ def oracle_c17(case, obs):
         for mode in ("adj", "noadj"):
             if pr[mode] != "ok":
                 hit(f"reject: power {p} is inside the advertised bounds incl=({il}, {iu}) excl=({el}, {eu}) but "
-                    f"_check_request(adjust_power={mode == 'adj'}) answered {pr[mode]} (enforced {enf})")
+                    f"_check_request(adjust_power={mode == 'adj'}) answered {pr[mode]} (enforced {tuple(str(v) for v in enf)})")
         if wfi and abs(p) > TOL:
             need = mu if p > 0 else mdn
             if abs(p) < need:
-                hit(f"minpower: power {p} is inside the advertised bounds but below the sum {need} of the groups' minimum powers")
+                w = f"minpower: power {p} is inside the advertised bounds but below the sum {need} of the groups' minimum powers"
+                if overlapping(obs["mgr_groups"]):
+                    out.append({"what": w + " (overlapping battery sets: the algorithm keys groups by their first battery id)",
+                                "finding": FINDING_OVERLAP})
+                else:
+                    hit(w)
     return out
 
 
@@ -355,20 +369,21 @@ Definition t4_eqb (a : pb) (b : Q * Q * Q * Q) : bool :=
 Definition opt4_eqb (a : option pb) (b : option (Q * Q * Q * Q)) : bool :=
   match a, b with None, None => true | Some x, Some y => t4_eqb x y | _, _ => false end.
 (* (calculator-side groups, expected advertised bounds,
-    manager side on complete data: groups, expected enforced bounds, expected sums of minimum powers (up, down),
-    probes: (power, (expected `in SystemBounds`, (accepted with adjust_power, accepted without)))) *)
+    manager side on complete data: groups, expected enforced bounds, expected sums of minimum powers (up, down)
+    as the distribution algorithm stores them, probes: (power, (expected `in SystemBounds`,
+    (accepted with adjust_power, accepted without)))) *)
 Definition check (c : list group * option (Q * Q * Q * Q)
-                      * option (list cgroup * (Q * Q * Q * Q) * (Q * Q) * list (Q * (bool * (bool * bool))))) : bool :=
+                      * option (list igroup * (Q * Q * Q * Q) * (Q * Q) * list (Q * (bool * (bool * bool))))) : bool :=
   let '(gs, eadv, m) := c in
   let adv := advertised gs in
   opt4_eqb adv eadv &&
   match m with
   | None => true
-  | Some (cgs, eenf, (mu, md), probes) =>
-    let ps := map pair_of cgs in
+  | Some (igs, eenf, (mu, md), probes) =>
+    let ps := map pair_of (map cg_of igs) in
     let enf := enforced ps in
     t4_eqb enf eenf &&
-    Qeq_bool (qsum (map min_power_up ps)) mu && Qeq_bool (qsum (map min_power_down ps)) md &&
+    Qeq_bool (min_power_keyed true (map ipair_of igs)) mu && Qeq_bool (min_power_keyed false (map ipair_of igs)) md &&
     forallb (fun q => let '(p, (c, (a, n))) := q in
                Bool.eqb (adv_contains adv p) c && Bool.eqb (check_request true enf p) a &&
                Bool.eqb (check_request false enf p) n) probes
@@ -384,13 +399,14 @@ def case_term(case, obs):
         return f"({gs}, {eadv}, None)"
     if any(pr["adj"] == "error" or pr["noadj"] == "error" for pr in obs["probes"]):
         return None  # an Error result has no model twin; the oracle reports it
-    cgs = "[" + "; ".join("([" + "; ".join(c_pb(case, b) for b in g["bats"]) + "], ["
-                          + "; ".join(c_pb(case, i) for i in g["invs"]) + "])" for g in obs["mgr_groups"]) + "]"
+    ipb = lambda c: f"({int(c)}%Z, {c_pb(case, c)})"
+    cgs = "[" + "; ".join("([" + "; ".join(ipb(b) for b in g["bats"]) + "], ["
+                          + "; ".join(ipb(i) for i in g["invs"]) + "])" for g in obs["mgr_groups"]) + "]"
     probes = "[" + "; ".join(
         f"({cQ(fr(pr['p']))}, ({cbool(bool(pr['contains']))}, ({cbool(pr['adj'] == 'ok')}, {cbool(pr['noadj'] == 'ok')})))"
         for pr in obs["probes"]) + "]"
-    return (f"({gs}, {eadv}, Some ({cgs}, {c_tuple4(obs['enf'])}, "
-            f"({cQ(fr(obs['min_up']))}, {cQ(fr(obs['min_down']))}), {probes}))")
+    mp = f"({cQ(fr(obs['min_up']))}, {cQ(fr(obs['min_down']))})"
+    return f"({gs}, {eadv}, Some ({cgs}, {c_tuple4(obs['enf'])}, {mp}, {probes}))"
 
 
 # ----------------------------------------------------------------------------- generation
@@ -497,8 +513,8 @@ def shrink_case(case):
 class PoolBoundsStream(Stream):
     name = "bounds"
     coq_header = HEADER
-    n_quick = 1500
-    n_thorough = 25000
+    n_quick = 800
+    n_thorough = 12000
 
     def gen(self, rng, tier):
         yield from boundary_cases()
@@ -507,33 +523,41 @@ class PoolBoundsStream(Stream):
             yield gen_case(rng)
 
     def run_impl(self, case):
-        return run_case(case)
+        try:
+            return run_case(case)
+        except Exception as exc:  # nothing raises on the unchanged tree; a mutant may
+            return {"error": f"{type(exc).__name__}: {exc}"}
 
     def to_coq(self, case, obs):
-        return case_term(case, obs)
+        return None if "error" in obs else case_term(case, obs)
 
     def show_term(self, case, obs):
-        t = case_term(case, obs)
+        t = None if "error" in obs else case_term(case, obs)
         if t is None:
             return None
-        return (f"let '(gs, _, m) := {t} in (advertised gs, match m with Some (cgs, _, _, probes) => "
-                f"Some (enforced (map pair_of cgs), qsum (map min_power_up (map pair_of cgs)), "
-                f"qsum (map min_power_down (map pair_of cgs)), "
+        return (f"let '(gs, _, m) := {t} in (advertised gs, match m with Some (igs, _, _, probes) => "
+                f"let cgs := map cg_of igs in "
+                f"Some (enforced (map pair_of cgs), min_power_keyed true (map ipair_of igs), "
+                f"min_power_keyed false (map ipair_of igs), "
                 f"map (fun q => (fst q, adv_contains (advertised gs) (fst q), check_request true (enforced (map pair_of cgs)) (fst q), "
                 f"check_request false (enforced (map pair_of cgs)) (fst q))) probes) | None => None end)")
 
     def oracle(self, case, obs):
+        if "error" in obs:
+            return [{"what": f"crash: calculator / manager raised {obs['error']}", "finding": None}]
         return oracle_c17(case, obs)
 
     def shrink(self, case):
         return shrink_case(case)
 
     def key(self, case, obs):
-        if obs["adv"] is None:
+        if "error" in obs or obs["adv"] is None:
             return None
         return json.dumps([case["edges"], case["data"], case["absent"], case["working"]], sort_keys=True)
 
     def labels(self, case, obs):
+        if "error" in obs:
+            return ["impl_error"]
         out = [f"groups={len(obs['calc_groups'])}", f"batteries={len(case['bats'])}", f"inverters={len(inverters_of(case))}"]
         out.append("complete_data" if is_complete(case) else "incomplete_data")
         if obs["adv"] is None:
@@ -552,8 +576,7 @@ class PoolBoundsStream(Stream):
             ni.setdefault(b, set()).add(i)
         if any(len(v) > 1 for v in ni.values()):
             out.append("battery_with_several_inverters")
-        gs = [frozenset(g["bats"]) for g in obs["calc_groups"]]
-        if any(a != b and a & b for a in gs for b in gs):
+        if overlapping(obs["calc_groups"]):
             out.append("overlapping_battery_sets")
         if set(case["working"]) != set(case["bats"]):
             out.append("some_not_working")
